@@ -113,6 +113,7 @@ type SpecFunc struct {
 	Line      int
 	File      string
 	ModeOnly  string // if set, body only used in this mode (abstract elsewhere)
+	Opaque    bool   // "opaque func": the body is used only in contracts that say "opt reveal=<name>"; elsewhere it is an uninterpreted function
 }
 
 type TableSpec struct {
@@ -222,7 +223,7 @@ func (eng *Engine) typeID(t types.Type) int {
 // ---------------------------------------------------------------- contract files
 
 var clauseKeywords = map[string]bool{
-	"spec": true, "pred": true, "func": true, "lemma": true, "mode": true, "requires": true, "ensures": true,
+	"spec": true, "opaque": true, "pred": true, "func": true, "lemma": true, "mode": true, "requires": true, "ensures": true,
 	"modifies": true, "let": true, "loop": true, "use": true, "table": true, "property": true, "opt": true,
 	"trusted": true, "iface": true, "field": true, "proof": true, "abstract": true, "globals": true, "assert": true, "internal": true,
 }
@@ -310,7 +311,7 @@ func (eng *Engine) loadContractFile(pkg *packages.Package, file string) error {
 	}
 	for _, rc := range raws {
 		switch rc.kw {
-		case "spec", "pred", "abstract":
+		case "spec", "pred", "abstract", "opaque":
 			cur = nil
 			if err := eng.parseSpecFunc(pkg, rc, short); err != nil {
 				fail(rc.line, "%v", err)
@@ -551,7 +552,7 @@ func (eng *Engine) resolveType(pkg *packages.Package, text string) (types.Type, 
 // parseSpecFunc handles: spec func name(p T, ...) R = body   |  pred name(p T,...) = body  | abstract func name(p T) R
 func (eng *Engine) parseSpecFunc(pkg *packages.Package, rc rawClause, file string) error {
 	text := rc.text
-	if rc.kw == "spec" || rc.kw == "abstract" {
+	if rc.kw == "spec" || rc.kw == "abstract" || rc.kw == "opaque" {
 		if !strings.HasPrefix(text, "func") {
 			return fmt.Errorf("expected 'spec func'")
 		}
@@ -591,7 +592,7 @@ func (eng *Engine) parseSpecFunc(pkg *packages.Package, rc rawClause, file strin
 	if rc.kw == "pred" || resT == "" {
 		resT = "bool"
 	}
-	sf := &SpecFunc{Name: name, PkgPath: pkg.PkgPath, Line: rc.line, File: file}
+	sf := &SpecFunc{Name: name, PkgPath: pkg.PkgPath, Line: rc.line, File: file, Opaque: rc.kw == "opaque"}
 	// params: "a, b T, c U"
 	var pend []string
 	for _, part := range splitTopLevel(params, ',') {
